@@ -132,6 +132,19 @@ CHECKS["C07"] = dict(
     design="§7 C07",
 )
 
+CHECKS["C03"] = dict(
+    text=("Lean: parallel_map_order_independent - for EVERY permutation of the completion order of the pool tasks the gathered list equals the task results in "
+          "submission order (gather by submission index); kernel_strategy_independent - any two (thread count, value chunking) strategies give the same "
+          "per-group result (corollary of the end-to-end kernel theorem, which quantifies over all block splits incl. groups absent from a block); "
+          "chunk_route_eq_global - a chunk-local code mapped through the chunk's pointer table equals the code against the unified label list (whole vs "
+          "chunk-wise factorization). Metamorphic correspondence through the public API: baseline strategy vs random strategies (threads 1..4, whole / "
+          "chunk-wise / monotonic / partially monotonic / pre-chunked arrow keys, contiguous / arrow-chunked values, random completion orders through the real "
+          "gathering code) for reductions, transform, cumulative, rolling, shift/diff, EMA, all mask kinds; three real-size cases (1M and 2M rows, no scaling)."),
+    note="PARTIAL: 'sums and means agree to floating-point rounding' is checked by a 1e-9 relative tolerance only (the model is exact arithmetic); real thread interleavings / data races are outside the model (tasks share no mutable arrays - assumed); the thread-count heuristic is replaced by the scaled value in the small runs and exercised unmodified in the real-size cases.",
+    technique="Lean 4 proof (permutation-invariance of gathering; strategy independence as corollary of the kernel contract; pointer-table lemma) + metamorphic differential testing across strategies",
+    design="§7 C03",
+)
+
 NOT_APPLICABLE: list[dict] = []
 
 
